@@ -363,6 +363,8 @@ private:
 
     //! Global loop start time
     double m_loopStartTime;
+    //! The song has a valid loopStart marker (otherwise the loop starts where the song starts)
+    bool m_loopStartMarker;
     //! Global loop end time
     double m_loopEndTime;
 
